@@ -154,9 +154,14 @@ def gen_driver(sig, theory_name, module_text):
     w("use th::*;")
     w("type M = %s;" % Th)
     # ---- generic dispatch
-    w("fn do_new(m: &mut M, ty: &str) -> u32 { match ty {")
+    w("fn do_new(m: &mut M, ty: &str, parent: Option<u32>) -> u32 { match ty {")
+    mtypes = sig.th.get("member_types", {})
     for t in sig.types:
-        w("  %s => m.new_%s().0," % (rs_str(t), snake(t)))
+        if t in mtypes:
+            # element of a member type: created inside a model (the parent)
+            w("  %s => m.new_%s(%s(parent.expect(\"member type needs a parent\"))).0," % (rs_str(t), snake(t), mtypes[t][0]))
+        else:
+            w("  %s => m.new_%s().0," % (rs_str(t), snake(t)))
     w("  _ => panic!(\"do_new: not a plain type\") } }")
     w("fn do_equate(m: &mut M, ty: &str, a: u32, b: u32) { match ty {")
     for t in types:
@@ -367,7 +372,8 @@ fn main() {
             let mut out = String::new();
             match op {
                 "new" => {
-                    let id = do_new(&mut m, toks[1]);
+                    let parent = if toks.len() > 3 { resolve(&st, &toks[3..4]).map(|a| a[0]) } else { None };
+                    let id = do_new(&mut m, toks[1], parent);
                     st.regs.insert(toks[2].to_string(), (toks[1].to_string(), id));
                     write!(out, "\"ty\":{},\"ret\":{}", jstr(toks[1]), id).unwrap();
                 }
